@@ -90,6 +90,14 @@ def coq_check_property(pid):
                 theorems=theorems, closed=closed, axioms=names, log=out[-3000:])
 
 
+def coq_chk(pid):
+    """independent re-check of the compiled property file and everything it depends on"""
+    rc, out = sh(['coqchk', '-o', '-silent', '-Q', 'theories', 'DP', 'DP.Props.%s' % pid], cwd=COQ, timeout=3000)
+    ok = (rc == 0 and '* Axioms: <none>' in out and 'type-in-type: <none>' in out
+          and 'unsafe (co)fixpoints: <none>' in out and 'positivity is assumed: <none>' in out)
+    return ok, out[-1500:]
+
+
 FORBIDDEN = r'Admitted|admit|Axiom|Parameter|Conjecture|Unset Guard|bypass_check|type-in-type|impredicative-set|Unset Positivity|Unset Universe'
 
 
